@@ -1021,6 +1021,15 @@ def first_provision_matrix(rng, tier):
                 prov(wl_user, good[0], m1 - 1, rng.choice([None, outsider]))
             # the one that goes through: a whitelisted caller, receiver varies with the pair
             prov(wl_user, good[0], good[1], [None, outsider, other_wl, wl_user][(i + rep) % 4])
+            # a caller who holds none of the pair's cw20 assets names a receiver who holds them and has approved the pair
+            for a in (a0, a1):
+                if a[0] == "t" and h.bal(a[1], outsider2) > 0:
+                    h.do(("transfer", a[1], outsider2, other_wl, h.bal(a[1], outsider2)))
+            r0, r1 = h.reserves(p)
+            if r0 > 0 and r1 > 0:
+                n0 = max(1, r0 // 11)
+                prov(outsider2, n0, max(1, n0 * r1 // r0), wl_user)
+                prov(outsider2, n0, max(1, n0 * r1 // r0), None)
             # ordinary provisions are open to all and are paid by the caller, whoever receives the LP
             for c, rcv in ((outsider, wl_user), (outsider2, None), (wl_user, outsider)):
                 r0, r1 = h.reserves(p)
@@ -1267,8 +1276,8 @@ def registry_histories(rng, tier, big=False):
         sizes += [52] if tier == "quick" else [31, 52, 103]
     for n in sizes:
         if n <= 14:
-            h = Hist(2, 4, 3, 14, 10 ** 9, 1000, [6, 8, 18], "directed-grid", "registry with %d pairs" % n)
-            nd_, nt_ = 4, 3
+            h = Hist(2, 6, 3, 14, 10 ** 9, 1000, [6, 8, 18], "directed-grid", "registry with %d pairs" % n)
+            nd_, nt_ = 6, 3
         else:
             # registries beyond every page size and batch size a walk might use: 11 / 15 assets give up to 55 / 105 pairs
             nd_, nt_ = (6, 5) if n <= 55 else (8, 7)
@@ -1318,7 +1327,7 @@ def registry_histories(rng, tier, big=False):
         h.do(("fac_update_config", owner, None, 8))
         if h.pairs():
             h.do(("fac_migrate", owner, h.pairs()[0], 2))
-        for d in ((0, 1, 0, 3) if n <= 14 else tuple(range(nd_)) + (0,)):
+        for d in ((0, 1, 0, 3, 4) if n <= 14 else tuple(range(nd_)) + (0,)):
             h.do(("fac_add_native", owner, d, rng.choice([0, 9, 12, 18])))
             h.do(("fac_add_native", USER0 + 1, d, 3))
         cases.append(h.finish())
@@ -1386,6 +1395,22 @@ def router_histories(rng, tier):
                     h.do(("router_ops", u, [(ops[0][0][1], amount)], ops, m, to), quote)
                 else:
                     h.do(("send", ops[0][0][1], u, ROUTER, amount, ("hrouter", ops, m, to)), quote)
+        # directed: minimums in the upper half of the 128-bit range (far above anything a route can deliver)
+        for m in (2 ** 128 - 1, 2 ** 127 + 2 ** 126):
+            u = rng.choice(h.users())
+            ops = [(A, B), (B, C)]
+            amount = max(1, min(h.abal(A, u), loguniform(rng, 10, 40)))
+            quote = h.query("rsim %d %s" % (amount, ops_line(ops)))
+            if A[0] == "n":
+                h.do(("router_ops", u, [(A[1], amount)], ops, m, rng.choice([None, USER0 + 1])), quote)
+            else:
+                h.do(("send", A[1], u, ROUTER, amount, ("hrouter", ops, m, rng.choice([None, USER0 + 1]))), quote)
+        # directed: a route whose hops are all funded (two native coins attached) but which is not a chain: the hop that
+        # buys the first asset back comes before the hop that would feed it - two dangling outputs
+        for ops, funds in (([(("n", 0), ("t", 2)), (("n", 1), ("n", 0)), (("t", 2), ("n", 1))], [(0, 50000), (1, 40000)]),
+                           ([(("n", 1), ("t", 3)), (("n", 0), ("n", 1)), (("t", 3), ("n", 0))], [(0, 30000), (1, 60000)])):
+            u = rng.choice(h.users())
+            h.do(("router_ops", u, funds, ops, None, rng.choice([None, USER0 + 1])))
         # directed: routes that pass the router's shape check without being a chain - one dangling output, plus a native hop
         # that neither the attached funds nor an earlier hop feeds
         for ops in ([(("n", 0), ("t", 2)), (("n", 1), ("t", 2))], [(("n", 1), ("t", 2)), (("n", 0), ("t", 2))],
@@ -1431,7 +1456,7 @@ def router_histories(rng, tier):
             if quote is not None and rng.random() < 0.8:
                 m = max(0, quote[0] + rng.choice([-1, -1, 0, 0, 0, 1, -quote[0], -(quote[0] // 2), 2 ** 127 - quote[0]]))
             elif rng.random() < 0.3:
-                m = rng.choice([0, 1, 2 ** 127])
+                m = rng.choice([0, 1, 2 ** 127, 2 ** 128 - 1, 2 ** 127 + 2 ** 126, 2 ** 127 + 10 ** 30])
             to = rng.choice([None, None, rng.choice(h.users()), u])
             if ops and rng.random() < 0.1:
                 to = rng.choice([ROUTER] + [q for q in (h.pair_for(o, a) for o, a in ops) if q is not None])
